@@ -100,6 +100,47 @@ def module_facts(src: str, getter: str, stem: str):
             "accessors": {k: cols.get(v[0], v[0]) for k, v in acc.items()}}
 
 
+def float_kernels(src_mdc: str, cols: dict):
+    """`mdc_gid_z_to_x / _y` and the derived slope arrays `dx_dz`, `dy_dz` of `_ensure_loaded`, as expressions over the table columns:
+    every `NAME[gid]` becomes the column's value for that wire (a variable named after the table key), `z` stays `z`."""
+    tree = ast.parse(src_mdc)
+    ens = _fn(tree, "_ensure_loaded")
+    derived = {}
+    for st in ens.body:
+        if isinstance(st, ast.Assign) and isinstance(st.targets[0], ast.Name) and st.targets[0].id in ("dx_dz", "dy_dz"):
+            derived[st.targets[0].id] = st.value
+
+    def col(name):
+        if name not in cols:
+            raise Unsupported(f"float kernel: `{name}` is not a module column bound to a table key")
+        return cols[name]
+
+    def tr(e, elementwise):
+        """elementwise: inside the loader the arrays are combined element-wise; inside the kernel they are indexed by gid"""
+        if isinstance(e, ast.BinOp) and type(e.op) in (ast.Add, ast.Sub, ast.Mult, ast.Div):
+            op = {ast.Add: "+", ast.Sub: "-", ast.Mult: "*", ast.Div: "/"}[type(e.op)]
+            return f"({tr(e.left, elementwise)} {op} {tr(e.right, elementwise)})"
+        if elementwise and isinstance(e, ast.Name):
+            return col(e.id)
+        if not elementwise and isinstance(e, ast.Subscript) and isinstance(e.value, ast.Name) and U(e.slice) == "gid":
+            if e.value.id in derived:
+                return tr(derived[e.value.id], True)
+            return col(e.value.id)
+        if not elementwise and isinstance(e, ast.Name) and e.id == "z":
+            return "z"
+        raise Unsupported(f"float kernel: expression `{U(e)}`")
+    out = {}
+    for name in ("mdc_gid_z_to_x", "mdc_gid_z_to_y"):
+        f = _fn(tree, name)
+        if not any("vectorize" in U(d) for d in f.decorator_list) or [a.arg for a in f.args.args] != ["gid", "z"]:
+            raise Unsupported(f"{name}: not a vectorize kernel of (gid, z)")
+        b = [x for x in f.body if not (isinstance(x, ast.Expr) and isinstance(x.value, ast.Constant))]
+        if len(b) != 1 or not isinstance(b[0], ast.Return):
+            raise Unsupported(f"{name}: body is not a single return")
+        out[name] = tr(b[0].value, False)
+    return out
+
+
 def _ls(xs):
     return "[" + ", ".join('"' + x + '"' for x in xs) + "]"
 
@@ -118,8 +159,14 @@ def generate(src_mdc: str, src_emc: str):
         L.append(f"/-- the getter hands out `{{k: v.copy() for k, v in {d['table_var']}.items()}}` (or slices / containers built from it): every array is a private copy -/\n")
         L.append(f"def {stem}GetterCopiesEveryArray : Bool := true\n")
         L.append(f"/-- the table is read from disk once per process, guarded by `_loaded` -/\ndef {stem}LoadedOnce : Bool := true\n\n")
+    fk = float_kernels(src_mdc, m["columns"])
+    L.append("/-- `mdc_gid_z_to_x(gid, z)` / `mdc_gid_z_to_y(gid, z)` with the loader's `dx_dz` / `dy_dz` substituted: a function of the wire's table\n")
+    L.append("row (variables named after the table keys) and `z`; polymorphic so that it can be read over the reals -/\n")
+    args = "(west_x west_y west_z east_x east_y east_z z : α)"
+    L.append(f"def zToXPy {{α : Type}} [Add α] [Sub α] [Mul α] [Div α] {args} : α := {fk['mdc_gid_z_to_x']}\n")
+    L.append(f"def zToYPy {{α : Type}} [Add α] [Sub α] [Mul α] [Div α] {args} : α := {fk['mdc_gid_z_to_y']}\n\n")
     L.append("end Pybes3Verif.Gen.GeomPy\n")
-    return "".join(L), {"mdc": m, "emc": e}
+    return "".join(L), {"mdc": m, "emc": e, "float_kernels": fk}
 
 
 if __name__ == "__main__":
@@ -127,4 +174,4 @@ if __name__ == "__main__":
     g = Path("/repo/src/pybes3/detectors/geometry")
     body, info = generate((g / "mdc.py").read_text(), (g / "emc.py").read_text())
     Path("/verif/lean/Pybes3Verif/Gen/GeomPy.lean").write_text(body)
-    print({k: {a: b for a, b in v.items() if a != "columns"} for k, v in info.items()})
+    print(info["float_kernels"])
